@@ -49,6 +49,9 @@ ConstructVerdict(e) ==
       stored == Range(e.items.keys)
   IN
   IF ~e.valid THEN (IF e.raised # "" THEN "ok" ELSE "inconsistent_input_produced_a_multivector")
+  \* forms the library MAY refuse (graded mode: complete grades given in another order): a refusal is fine, but if a
+  \* multivector is built it must reflect the supplied coefficients like any other
+  ELSE IF e.raised # "" /\ "mayrefuse" \in DOMAIN e /\ e.mayrefuse THEN "ok"
   ELSE IF e.raised # "" THEN "valid_construction_raised"
   ELSE IF ~MI!StoredOK(c, e.items.keys, e.items.coefs) THEN "stored_form_not_well_formed"
   ELSE IF ~MI!SameElement(got, want) THEN "supplied_coefficient_dropped_negated_or_misplaced"
